@@ -23,7 +23,10 @@ ASSUMPTIONS = ["an edge that attaches a context (even an empty one) replaces the
                "prevented-call scenarios use argument values of their own (the outer call's outcome is memoized "
                "under the ordinary key; not judged by this property)"]
 TIMEOUT = 600
-CTXS = [None, {"tenant": 1}, {"tenant": 2}, {"asof": "2020-01-01", "k": [1, 2]}, {"tenant": 1, "x": None}]
+# (contexts that are equal for Python and distinct for memento - 1 / True / 1.0 - are different contexts)
+CTXS = [None, {"tenant": 1}, {"tenant": 2}, {"asof": "2020-01-01", "k": [1, 2]}, {"tenant": 1, "x": None}, {"tenant": True},
+        {"tenant": 1.0}]
+TWINS = [{"tenant": 1}, {"tenant": True}, {"tenant": 1.0}]
 
 
 def cases(tier, seed):
@@ -65,7 +68,12 @@ def run_tree(case, out, fail):
     tree = trees.gen_tree(rng, tid, with_context=True)
     tfuncs.TREES[tid] = tree
     ctx0 = rng.choice(CTXS)
-    ctx1 = rng.choice([c for c in CTXS if c != ctx0])
+    js = lambda c: json.dumps(c, sort_keys=True)
+    ctx1 = rng.choice([c for c in CTXS if js(c) != js(ctx0)])
+    if rng.random() < 0.3:  # the second context is a typed twin of the first
+        ctx0 = rng.choice(TWINS)
+        ctx1 = rng.choice([c for c in TWINS if js(c) != js(ctx0)])
+        out["obs"]["typed_twin_context_pairs"] += 1
     batch = rng.random() < 0.3
     ent0 = trees.simulate(tree, root_ctx=ctx0)
     ent1 = trees.simulate(tree, root_ctx=ctx1)
@@ -208,4 +216,5 @@ def run_case(case):
 def conclude(agg):
     return core.first(core.need(agg, "entries_looked_up", 300), core.need(agg, "foreign_context_lookups", 300),
                       core.need(agg, "entries_rerun_after_context_change", 100), core.need(agg, "prevent_scenarios", 10),
+                      core.need(agg, "typed_twin_context_pairs", 8),
                       core.need(agg, "body_parameter_sets_seen", 300)), {}
